@@ -147,6 +147,8 @@ def cmd_coq(c):
         return "CFail"
     if k == "compabort":
         return "CFail"      # a comprehension whose variable has the name of a session definition, aborted by an error: no effect, the error
+    if k == "callabort":
+        return "CFail"      # a function (with and without parameters, named and anonymous) that defines a local with the name of a session definition, then fails
     if k == "loopshadow":
         return "CFail"      # a loop over a variable that has the name of a session definition, aborted by an error: no effect, the error
     if k == "syntax":
@@ -183,6 +185,12 @@ def cmd_src(c):
                  "[if %s == 4 then error 'boom' else %s for zq in [1, 2] also for %s in [3, 4]]", "<<if %s == 4 then error 'boom' else %s for zq in [1] for %s in [3, 4]>>",
                  "[if %s == 4 then error 'boom' else %s for %s in [3, 4] for zq in [1]]"]
         return forms[c[2] % len(forms)] % (v, v, v)
+    if k == "callabort":
+        v = vname(c[1])
+        forms = ["(fn() do def %s = 41; %s += 1; error 'boom' end)()", "(fn(zq) do def %s = zq; %s += 1; error 'boom' end)(41)",
+                 "(fn() do def zf() do def %s = 41; %s += 1; error 'boom' end; zf() end)()", "(fn(zq = 41) do def %s = zq; %s += 1; error 'boom' end)()",
+                 "<*go = fn(self) do def %s = 41; %s += 1; error 'boom' end*>->go()", "[1] !> (fn(zq) do def %s = zq; %s += 1; error 'boom' end)()"]
+        return forms[c[2] % len(forms)] % (v, v)
     if k == "loopshadow":
         return "for %s in [1, 2, 3] do if %s == 2 then error 'boom' end" % (vname(c[1]), vname(c[1]))
     if k == "syntax":
